@@ -47,6 +47,10 @@ claim("C16","fault_enumeration","offline trace checking of scripted fake-plugin 
  "The real thriftrw binary is run against fake plugin executables that follow fault scripts (every protocol step x every fault incl. truncation at every reply byte offset, enumerated completely for one plugin; random pairs/triples for concurrency). Each plugin writes an event log; the harness checks it against the automaton (generate only after an acceptable handshake, exactly one goodbye to live handshaken plugins, none to failed ones, frames intact), checks exit status and that stderr names a failing plugin, checks with strace -f that every plugin child was waited for, and runs half of the concurrent cases on a -race host. plugin.Main is driven over in-memory pipes.",
  "plugins that never terminate are outside the quantifier; reaping is observed through strace on a sample (all single-plugin cases in thorough)", "DESIGN.md §5 C16")
 
+claim("C17","fault_enumeration","file-system snapshot diff (whole sandbox tree: path, mode, size, sha256) around runs of the real binary with scripted fake plugins; strace of write-mode opens; exit status",
+ "The real thriftrw binary runs in a sandbox parent/{thrift,out,other} with canaries and a pre-populated out directory. Enumerated: plugin path shapes (absolute, '..' forms, aliases of core and other plugins' paths, directories, NUL, deep), every named failure cause, the k-th of n modules failing, thrift-root layouts; plus random combinations. After each run the snapshots decide confinement, conflict reporting, all-or-nothing and the expected generated paths; strace -f on a sample confirms no write-mode open outside out.",
+ "failures that can only arise while writing are only checked for confinement; symlinks inside out are not explored", "DESIGN.md §5 C17")
+
 NOT_IMPL = "check not implemented yet in this round (statement about the machinery, not the technique)"
 
 def main():
